@@ -181,9 +181,8 @@ func (c *kase) finalChecks() {
 			_, left := r.q.LastQueued()
 			if left != c.cap-occ {
 				c.o.Count("final:len-drift")
-				// 3d50aab: `len` must not exceed the occupied slots any more (queue_len_never_overcounts); what is
-				// left is the under-count when Run's second lock section finds its slot re-used or cleaned
-				// (queue_len_undercount_witness): known inside that class only
+				// `len` is the number of occupied slots for every schedule (queue_len_exact, after 3d50aab and
+				// 6d1ab5f): both directions are regressions of defects this check found (len-drift, len-undercount)
 				key := "len-drift"
 				if left > c.cap-occ {
 					key = "len-undercount-fresh"
